@@ -188,11 +188,16 @@ func (p *RtpPacket) Body() []byte {
 		Log.Warnf("CHEFNOTICEME. payloadOffset=%d", p.Header.payloadOffset)
 		p.Header.payloadOffset = RtpFixedHeaderLength
 	}
+	// 注意，padding长度和payload偏移都来自对端数据，需要检查有效性，无效时返回空body
+	end := len(p.Raw)
 	if p.Header.Padding == 1 {
-		return p.Raw[p.Header.payloadOffset : len(p.Raw)-p.Header.paddingLength]
+		end -= p.Header.paddingLength
+	}
+	if int(p.Header.payloadOffset) > end {
+		return nil
 	}
 
-	return p.Raw[p.Header.payloadOffset:]
+	return p.Raw[p.Header.payloadOffset:end]
 }
 
 func (p *RtpPacket) DebugString() string {
@@ -221,20 +226,23 @@ func IsAvcBoundary(pkt RtpPacket) bool {
 
 	// TODO(chef): [fix] 检查数据长度有效性 202211
 	b := pkt.Body()
+	if len(b) < 1 {
+		return false
+	}
 	outerNaluType := avc.ParseNaluType(b[0])
 
 	if _, ok := boundaryNaluTypes[outerNaluType]; ok {
 		return true
 	}
 
-	if outerNaluType == NaluTypeAvcStapa {
+	if outerNaluType == NaluTypeAvcStapa && len(b) > 3 {
 		t := avc.ParseNaluType(b[3])
 		if _, ok := boundaryNaluTypes[t]; ok {
 			return true
 		}
 	}
 
-	if outerNaluType == NaluTypeAvcFua {
+	if outerNaluType == NaluTypeAvcFua && len(b) > 1 {
 		t := avc.ParseNaluType(b[1])
 		if _, ok := boundaryNaluTypes[t]; ok {
 			if b[1]&0x80 != 0 {
@@ -263,13 +271,16 @@ func IsHevcBoundary(pkt RtpPacket) bool {
 
 	// TODO(chef): [fix] 检查数据长度有效性 202211
 	b := pkt.Body()
+	if len(b) < 1 {
+		return false
+	}
 	outerNaluType := hevc.ParseNaluType(b[0])
 
 	if _, ok := boundaryNaluTypes[outerNaluType]; ok {
 		return true
 	}
 
-	if outerNaluType == NaluTypeHevcFua {
+	if outerNaluType == NaluTypeHevcFua && len(b) > 2 {
 		t := b[2] & 0x3F // 注意，这里是后6位，不是中间6位
 		if _, ok := boundaryNaluTypes[t]; ok {
 			if b[2]&0x80 != 0 {
